@@ -77,7 +77,13 @@ pub fn run<F: Fn(usize) -> (Vec<u8>, bool)>(n: usize, per_child: usize, deadline
     let sh = shared_counter();
     PROGRESS.store(unsafe { sh.current.add(1) } as usize, std::sync::atomic::Ordering::Relaxed);
     let mut start = 0usize;
+    let mut timeouts = 0usize;
     while start < n {
+        // a tree on which case after case hangs would take hours at one deadline each: after a few
+        // hangs the rest of the batch is abandoned (the caller reports what was judged so far)
+        if timeouts >= 4 {
+            break;
+        }
         let end = (start + per_child.max(1)).min(n);
         let mut fds = [0i32; 2];
         unsafe {
@@ -174,6 +180,7 @@ pub fn run<F: Fn(usize) -> (Vec<u8>, bool)>(n: usize, per_child: usize, deadline
                 NOTES.lock().unwrap().push((next, note));
             }
             let o = if timed_out {
+                timeouts += 1;
                 Outcome::Timeout(prog)
             } else if libc::WIFSIGNALED(status) {
                 Outcome::Signal(libc::WTERMSIG(status), prog)
